@@ -584,6 +584,8 @@ def local_ties(pdb, ctx):
                             ties.append((("field", var, f["name"]), project(src, (f["name"],))))
                 if adt == "vector::Vector":
                     ties.append((SIZE(var), SIZE(src)))
+                if b.ty.startswith("std::vec::Vec"):
+                    ties.append((LEN(var), LEN(src)))
                 continue
             p = callee_path(init)
             cf = pdb.fn(p) if p else None
